@@ -171,10 +171,15 @@ func (b *build) runRealCase(doc []docAgent, c realCase, n int) (sig, detail stri
 	_ = os.WriteFile(filepath.Join(cwd, "main.go"), []byte("package main\n"), 0o644)
 	_ = os.WriteFile(filepath.Join(home, ".profile"), []byte("x\n"), 0o600)
 	if c.Pre == "older" {
-		for _, rel := range rels {
+		for i, rel := range rels {
 			p := filepath.Join(dest, rel)
 			_ = os.MkdirAll(filepath.Dir(p), 0o755)
-			_ = os.WriteFile(p, []byte("OLD "+rel), 0o600)
+			content := []byte("OLD " + rel)
+			if i%2 == 1 {
+				content = []byte(skill[rel]) // same bytes, private mode: must still end up 0644
+			}
+			_ = os.WriteFile(p, content, 0o600)
+			_ = os.Chmod(p, 0o600)
 		}
 		_ = os.WriteFile(filepath.Join(dest, "notes.txt"), []byte("mine"), 0o600)
 		_ = os.MkdirAll(filepath.Join(base, "other-skill"), 0o755)
